@@ -50,15 +50,15 @@ def jobs(tier):
     if tier == 'thorough':
         for f in firsts:
             jobs.append(Job(H, dict(length=3, first=f), pkg_key='default',
-                            max_paths=5000, max_int_values=8, validate=1))
+                            max_paths=5000, max_int_values=12, validate=1))
     else:
         for f in firsts:
             jobs.append(Job(H, dict(length=2, first=f), pkg_key='default',
-                            max_paths=5000, max_int_values=8, validate=1))
+                            max_paths=5000, max_int_values=12, validate=1))
         # link chains and collisions need three declarations
         for f in ([1, 0], [0, 0]):
             jobs.append(Job(H, dict(length=3, first=f), pkg_key='default',
-                            max_paths=5000, max_int_values=8, validate=1,
+                            max_paths=5000, max_int_values=12, validate=1,
                             split=2))
     return jobs
 
